@@ -98,6 +98,15 @@ def c03_cls(ctx, case):
         else:
             ctx.close(vb, va, "%s.%s must not depend on the amplitude" % (row, name), rtol=0,
                       atol=ctol * max(1.0, float(np.max(np.abs(va)))) if va.size else 0, sig=sig)
+    # the same object given the amplified samples (the caller scales its own array in place and assigns it again)
+    arr = np.array(x, copy=True)
+    obj = est.build(row, arr, p, NFFT=case["nfft"])
+    _ = obj.psd
+    arr *= c
+    obj.data = arr
+    est.compare_psd(ctx, row, est.psd_of(obj), ac ** e * np.real(pa),
+                    "%s: existing object re-assigned its own array scaled in place by c=%r: psd vs |c|^%d psd(x)" % (row, c, e),
+                    sig=dict(sig, clause="object-reused"))
     if row == "mtm_adapt":
         wa, wb = np.asarray(a.weights), np.asarray(b.weights)
         ctx.check(not np.iscomplexobj(wb) or float(np.max(np.abs(wb.imag))) == 0, "adaptive weights of c*x are complex", sig=sig)
